@@ -169,9 +169,11 @@ theorem ntOk_main (env : Env) (hc : env.custom = none) (hr : RecogOk env) (hns :
       obtain ⟨cx, r⟩ := lp
       have hcx := hlay cx r hlp
       simp only at hn
-      have hcx' : ∀ (l : Option Slice), CtxOk env.input { cx with state := ctx1.state, lay := l } := by
-        intro l; exact hcx
-      have hcx'' : CtxOk env.input { cx with state := ctx1.state } := hcx
+      have hcx' : ∀ (l : Option Slice),
+          CtxOk env.input { cx with state := ctx1.state, span := ctx1.span, lay := l } := by
+        intro l; exact ⟨hcx.1, hc1.2.1, hc1.2.2⟩
+      have hcx'' : CtxOk env.input { cx with state := ctx1.state, span := ctx1.span } :=
+        ⟨hcx.1, hc1.2.1, hc1.2.2⟩
       split at hn
       · split at hn
         · split at hn
